@@ -20,7 +20,9 @@ ID = "C15"
 A_SPELL = ["src/a.c", "src/a_link.c", "srcl/a.c", "./src/./a.c", "src/../src/a.c", "lnk/a.c"]   # lnk/a.c: a link in *another* directory, beside a decoy h.h
 I_SPELL = ["inc", "inc/.", "srcl/../inc", "./inc//"]
 B_SECOND = [None, '#include "h.h"', '#include "h_link.h"', '#include "../inc/h.h"']
-G_SPELL = ["sub/g.h", "./sub/g.h", "sub/../sub/g.h", "../srcl/sub/g.h"]
+# "../cur/sub/g.h": `cur` is a directory link that points to src in some cases and to alt in others - the same spelled
+# path names different physical files in different analyses of one process
+G_SPELL = ["sub/g.h", "./sub/g.h", "sub/../sub/g.h", "../srcl/sub/g.h", "../cur/sub/g.h@src", "../cur/sub/g.h@alt"]
 X_LINKS = ["none", "outside-link", "all-links-present"]
 SITES = [A_SPELL, A_SPELL, I_SPELL, B_SECOND, G_SPELL, X_LINKS]
 H = "#pragma once\n#ifndef SEEN\n#define SEEN\nint first;\n#else\nint second;\n#endif\n#ifdef A\nint ha;\n#endif\n"
@@ -37,13 +39,18 @@ def build(base, case, canonical):
     second = B_SECOND[b2]
     if canonical and second is not None:
         second = '#include "h.h"'
-    g = G_SPELL[0] if canonical else G_SPELL[gsp]
+    gopt = G_SPELL[gsp]
+    if canonical:
+        g = "../alt/sub/g.h" if gopt.endswith("@alt") else G_SPELL[0]
+    else:
+        g = gopt.split("@")[0]
     files = {
         "src/a.c": '#include "h.h"\nint a;\n#ifdef A\nint aa;\n#endif\n',
         "src/b.c": '#include "h.h"\n' + (second + "\n" if second else "") + f'#include "{g}"\nint b;\n',
         "lib/c.c": '#include "../src/sub/g.h"\nint c;\n',
         "inc/h.h": H,
         "src/sub/g.h": "int g;\n",
+        "alt/sub/g.h": "int galt;\n#ifdef A\nint galt_a;\n#endif\n",
         "lnk/h.h": "int decoy;\n#define DECOY\n",      # must never be picked: a.c lives in src/, whatever it was called on the command line
     }
     links = {}
@@ -71,6 +78,8 @@ def build(base, case, canonical):
             links["src/out.c"] = "../../outside/o.c"
         if "L5" in need:
             links["lnk/a.c"] = "../src/a.c"
+        if "@" in gopt:
+            links["cur"] = gopt.split("@")[1]
     codebase.write_tree(root, files, links)
     sp1 = A_SPELL[0] if canonical else A_SPELL[a1]
     sp2 = A_SPELL[0] if canonical else A_SPELL[a2]
@@ -145,7 +154,7 @@ def _sm(sm):
 def describe(case):
     a1, a2, isp, b2, gsp, xl = case
     return {"p1 compiles": A_SPELL[a1], "p2 compiles": A_SPELL[a2], "-I": I_SPELL[isp], "second include in b.c": B_SECOND[b2],
-            "g.h included as": G_SPELL[gsp], "extra links": X_LINKS[xl]}
+            "g.h included as": G_SPELL[gsp].replace("@", " with cur -> "), "extra links": X_LINKS[xl]}
 
 
 def _work(cases):
